@@ -135,16 +135,20 @@ func (c *Compiler) compileTryStmt(node *parser.TryStmt) error {
 		}
 	}
 
-	c.tryCatchIndex--
 	// always emit OpSetupFinally to cleanup
+	// error handler of the statement is still active while finally block is
+	// running, keep the index until the block is compiled so that try
+	// statements and jumps in it are numbered after this statement.
 	if node.Finally != nil {
 		finallyPos = c.emit(node.Finally, OpSetupFinally)
 		if err := c.Compile(node.Finally); err != nil {
+			c.tryCatchIndex--
 			return err
 		}
 	} else {
 		finallyPos = c.emit(node, OpSetupFinally)
 	}
+	c.tryCatchIndex--
 
 	c.changeOperand(optry, catchPos, finallyPos)
 	if node.Catch != nil {
